@@ -82,6 +82,15 @@ def dirty_heap(rng, n):
             del junk
 
 
+def mixed_params(rng, zlo, zhi):
+    """each section of a parameter file has its own `type`: spline specific yield with PEATCLSM transmissivity, or the
+    reverse (e.g. a spline fitted to the well-constrained rise curve, the published transmissivity kept)"""
+    a, b = spline_params(rng, zlo, zhi), peatclsm_params(rng, zhi)
+    if rng.random() < 0.5:
+        a, b = b, a
+    return {"specific_yield": a["specific_yield"], "transmissivity": b["transmissivity"]}
+
+
 def make_functions(params):
     common.import_spowtd()
     import copy
@@ -136,6 +145,13 @@ def simulate_cli(ctx, kind, db, params, observations):
     with open(pfile, "w") as fh:
         yaml.safe_dump(params, fh)
     out = ctx.scratch("sim.out")
+    if ctx.rng.random() < 0.25:
+        # no -o: the result goes to standard output
+        buf = io.StringIO()
+        with contextlib.redirect_stdout(buf):
+            r = cli.run(["simulate", kind, db, pfile] + (["--observations"] if observations else []))
+        ctx.count("simulate_to_stdout")
+        return r, buf.getvalue()
     argv = ["simulate", kind, db, pfile, "-o", out] + (["--observations"] if observations else [])
     # (the simulate and pestfiles sub-commands take no -v / --logfile options)
     r = cli.run(argv)
@@ -150,3 +166,32 @@ def simulate_cli(ctx, kind, db, params, observations):
     except OSError:
         pass
     return r, text
+
+
+def parse_table(text):
+    """(rows, problem): the tabulated output must be a YAML list: one header row of three strings, then rows
+    of three numbers; `problem` says what is wrong otherwise (never raises)."""
+    try:
+        doc = yaml.safe_load(text)
+    except Exception as e:  # noqa
+        return None, "output is not YAML: %s" % str(e)[:120]
+    num = (int, float)
+    if not isinstance(doc, list) or not doc:
+        return None, "output is not a YAML list of rows"
+    if not (isinstance(doc[0], list) and len(doc[0]) == 3 and all(isinstance(x, str) for x in doc[0])):
+        return None, "first row is not a header of three strings: %r" % (doc[0],)
+    for k, r in enumerate(doc[1:], 1):
+        if not (isinstance(r, list) and len(r) == 3 and all(isinstance(x, num) and not isinstance(x, bool) for x in r)):
+            return None, "row %d of %d is not three numbers: %r" % (k, len(doc) - 1, r)
+    return doc, None
+
+
+def parse_vector(text):
+    """(values, problem): the --observations output must be a YAML list of numbers."""
+    try:
+        doc = yaml.safe_load(text)
+    except Exception as e:  # noqa
+        return None, "output is not YAML: %s" % str(e)[:120]
+    if not isinstance(doc, list) or not all(isinstance(x, (int, float)) and not isinstance(x, bool) for x in doc):
+        return None, "output is not a YAML list of numbers: %r" % (doc if not isinstance(doc, list) else doc[:3],)
+    return doc, None
